@@ -63,6 +63,9 @@ m = {
     "engines": [
         {"name": "kani-cbmc", "path": "kani/core", "serves_properties": [c["property_id"] for c in checks],
          "kind_free_text": "Kani proof harnesses (out-of-tree crate with path deps on /repo) driving the real d-engine functions with symbolic inputs; CBMC bounded model checking decided by CaDiCaL; runner ./check + tools/vlib.py"},
+        {"name": "kani-cbmc-shadow", "path": "kani/shadow",
+         "serves_properties": [pid for pid in ids if pid in PROPS and any(h.get("crate") == "shadow" for h in PROPS[pid]["harnesses"])],
+         "kind_free_text": "Engine S: shadow build of d-engine-core/src/storage/buffered_raft_log.rs -- the file's source text, regenerated from /repo on every run by kani/shadow/gen.py (mechanical rewrites R1-R6 listed there), compiled against bounded models of SkipMap / tokio channels (kani/shadow/src/shim.rs) and executed by the same Kani/CBMC runner"},
     ],
     "checks": checks,
     "notes": "exit 0 = all harnesses verified within their stated bounds; exit 1 = VIOLATION (native replay reproduced); exit 2 = inconclusive (timeout / OOM / vacuous / non-reproducing), never a pass. Known findings: known_findings.json.",
